@@ -159,7 +159,7 @@ func unionMalformed(sp *spec.Spec, sv *spec.Service, m *spec.Method, r *vc.Rand,
 			bad = "null"
 		}
 		node["$value"] = "rawvalue:" + bad
-		names := []string{"decode_payload", "invalid_field_type", "missing_field"}
+		names := []string{"decode_payload", "invalid_field_type", "invalid_format", "missing_field"}
 		switch class {
 		case "union-no-value":
 			node["$value"] = "novalue:"
